@@ -183,12 +183,280 @@ class SortMethods(ast.NodeTransformer):
         return node
 
 
-KINDS = {'unparse': None, 'rename-locals': RenameLocals, 'negate-if': NegateIf, 'expand-augassign': ExpandAug, 'else-pass': ElifToNested, 'rename-private': RenamePrivate, 'return-temp': ReturnTemp, 'split-and': SplitAnd, 'sort-methods': SortMethods}
+class SetToFrozenset(ast.NodeTransformer):
+    """Module- and class-level set literals (and the set values of dict literals there) become frozenset({...}) calls."""
+
+    def __init__(self):
+        self.depth = 0
+
+    def visit_FunctionDef(self, node):
+        return node          # only module / class level
+
+    def visit_Set(self, node):
+        self.generic_visit(node)
+        return ast.Call(func=ast.Name(id='frozenset', ctx=ast.Load()), args=[ast.Set(elts=node.elts)], keywords=[])
+
+
+class DictLiteralToCall(ast.NodeTransformer):
+    """{'a': x, 'b': y} with identifier keys -> dict(a=x, b=y) inside functions."""
+
+    def visit_Dict(self, node):
+        self.generic_visit(node)
+        if node.keys and all(isinstance(k, ast.Constant) and isinstance(k.value, str) and k.value.isidentifier()
+                             and k.value not in ('self', 'cls') for k in node.keys):
+            import keyword
+            if not any(keyword.iskeyword(k.value) for k in node.keys):
+                return ast.Call(func=ast.Name(id='dict', ctx=ast.Load()), args=[],
+                                keywords=[ast.keyword(arg=k.value, value=v) for k, v in zip(node.keys, node.values)])
+        return node
+
+    def visit_ClassDef(self, node):
+        # class-level tables stay literals (they are part of the public constants)
+        for st in node.body:
+            if isinstance(st, ast.FunctionDef):
+                self.visit(st)
+        return node
+
+
+class RenamePrivateParams(ast.NodeTransformer):
+    """Parameters of private functions / methods (other than self) renamed p -> p_a, at the definition, in the body and at
+    every keyword use in a call of a function of that name anywhere in the package."""
+    table = None      # function name -> {old: new}
+
+    def visit_FunctionDef(self, node):
+        self.generic_visit(node)
+        ren = self.table.get(node.name)
+        if ren:
+            for a in node.args.args + node.args.kwonlyargs:
+                if a.arg in ren:
+                    a.arg = ren[a.arg]
+            for n in ast.walk(node):
+                if isinstance(n, ast.Name) and n.id in ren:
+                    n.id = ren[n.id]
+        return node
+
+    def visit_Call(self, node):
+        self.generic_visit(node)
+        fname = node.func.attr if isinstance(node.func, ast.Attribute) else node.func.id if isinstance(node.func, ast.Name) else None
+        ren = self.table.get(fname)
+        if ren:
+            for kw in node.keywords:
+                if kw.arg in ren:
+                    kw.arg = ren[kw.arg]
+        return node
+
+
+def private_params(root, files):
+    table = {}
+    for rel in files:
+        tree = ast.parse(open(os.path.join(root, 'python', 'pydiffx', rel)).read())
+        for n in ast.walk(tree):
+            if isinstance(n, ast.FunctionDef) and n.name.startswith('_') and not n.name.startswith('__'):
+                nested = {m.id for f in ast.walk(n) if f is not n and isinstance(f, (ast.FunctionDef, ast.Lambda)) for m in ast.walk(f) if isinstance(m, ast.Name)}
+                ps = [a.arg for a in n.args.args + n.args.kwonlyargs if a.arg not in ('self', 'cls') and a.arg not in nested]
+                if n.args.kwarg or n.args.vararg:
+                    continue
+                table.setdefault(n.name, {}).update({p_: p_ + '_a' for p_ in ps})
+    return table
+
+
+class FlipCompare(ast.NodeTransformer):
+    """a OP b -> b OP' a for single comparisons with ==, !=, <, <=, >, >= (operands are side-effect free names,
+    attributes, constants, subscripts or len() calls in this code base)."""
+    FLIP = {ast.Eq: ast.Eq, ast.NotEq: ast.NotEq, ast.Lt: ast.Gt, ast.LtE: ast.GtE, ast.Gt: ast.Lt, ast.GtE: ast.LtE}
+
+    def _pure(self, n):
+        return all(isinstance(x, (ast.Name, ast.Attribute, ast.Constant, ast.Subscript, ast.Load, ast.UnaryOp, ast.USub, ast.BinOp,
+                                  ast.Add, ast.Sub, ast.Mult, ast.Tuple)) or
+                   (isinstance(x, ast.Call) and isinstance(x.func, ast.Name) and x.func.id == 'len') for x in ast.walk(n)
+                   if not isinstance(x, (ast.expr_context, ast.operator, ast.unaryop)) or True) if False else \
+            not any(isinstance(x, ast.Call) and not (isinstance(x.func, ast.Name) and x.func.id == 'len') for x in ast.walk(n))
+
+    def visit_Compare(self, node):
+        self.generic_visit(node)
+        if len(node.ops) == 1 and type(node.ops[0]) in self.FLIP and self._pure(node.left) and self._pure(node.comparators[0]):
+            return ast.Compare(left=node.comparators[0], ops=[self.FLIP[type(node.ops[0])]()], comparators=[node.left])
+        return node
+
+
+class KeywordsToPositional(ast.NodeTransformer):
+    """Calls of private functions / methods of the package pass their leading keyword arguments positionally when they
+    are given in signature order (self._f(a=x, b=y) -> self._f(x, y))."""
+    sigs = None
+
+    def visit_Call(self, node):
+        self.generic_visit(node)
+        fname = node.func.attr if isinstance(node.func, ast.Attribute) else node.func.id if isinstance(node.func, ast.Name) else None
+        sig = self.sigs.get(fname)
+        if sig and not any(isinstance(a, ast.Starred) for a in node.args) and all(kw.arg for kw in node.keywords):
+            i = len(node.args)
+            while node.keywords and i < len(sig) and node.keywords[0].arg == sig[i]:
+                node.args.append(node.keywords.pop(0).value)
+                i += 1
+        return node
+
+
+def private_sigs(root, files):
+    sigs, dup = {}, set()
+    for rel in files:
+        tree = ast.parse(open(os.path.join(root, 'python', 'pydiffx', rel)).read())
+        for n in ast.walk(tree):
+            if isinstance(n, ast.FunctionDef) and n.name.startswith('_') and not n.name.startswith('__'):
+                ps = [a.arg for a in n.args.args if a.arg not in ('self', 'cls')]
+                if n.name in sigs and sigs[n.name] != ps:
+                    dup.add(n.name)
+                sigs[n.name] = ps
+    return {k: v for k, v in sigs.items() if k not in dup}
+
+
+class Annotate(ast.NodeTransformer):
+    """Every parameter (except self/cls) and every return gets a string annotation; module- and class-level constants
+    become annotated assignments (X: 'Final' = ...)."""
+
+    def visit_FunctionDef(self, node):
+        self.generic_visit(node)
+        for a in node.args.args + node.args.kwonlyargs:
+            if a.arg not in ('self', 'cls'):
+                a.annotation = ast.Constant(value='object')
+        node.returns = ast.Constant(value='object')
+        return node
+
+    def _consts(self, body):
+        out = []
+        for st in body:
+            if isinstance(st, ast.Assign) and len(st.targets) == 1 and isinstance(st.targets[0], ast.Name) \
+                    and st.targets[0].id.isupper():
+                out.append(ast.AnnAssign(target=st.targets[0], annotation=ast.Constant(value='Final'), value=st.value, simple=1))
+            else:
+                out.append(st)
+        return out
+
+    def visit_ClassDef(self, node):
+        self.generic_visit(node)
+        node.body = self._consts(node.body)
+        return node
+
+    def visit_Module(self, node):
+        self.generic_visit(node)
+        node.body = self._consts(node.body)
+        return node
+
+
+class IfToIfExp(ast.NodeTransformer):
+    """if c: x = a  else: x = b   ->   x = a if c else b   (same single plain target in both branches)."""
+
+    def visit_If(self, node):
+        self.generic_visit(node)
+        if len(node.body) == 1 and len(node.orelse) == 1 and isinstance(node.body[0], ast.Assign) and isinstance(node.orelse[0], ast.Assign):
+            a, b = node.body[0], node.orelse[0]
+            if len(a.targets) == 1 and len(b.targets) == 1 and isinstance(a.targets[0], ast.Name) and isinstance(b.targets[0], ast.Name) \
+                    and a.targets[0].id == b.targets[0].id:
+                return ast.Assign(targets=[ast.Name(id=a.targets[0].id, ctx=ast.Store())], value=ast.IfExp(test=node.test, body=a.value, orelse=b.value))
+        return node
+
+
+class GetNoneAndFlipIs(ast.NodeTransformer):
+    """d.get(k) -> d.get(k, None);  x is None -> None is x;  x is not None -> None is not x."""
+
+    def visit_Call(self, node):
+        self.generic_visit(node)
+        if isinstance(node.func, ast.Attribute) and node.func.attr == 'get' and len(node.args) == 1 and not node.keywords:
+            node.args.append(ast.Constant(value=None))
+        return node
+
+    def visit_Compare(self, node):
+        self.generic_visit(node)
+        if len(node.ops) == 1 and isinstance(node.ops[0], (ast.Is, ast.IsNot)) and isinstance(node.comparators[0], ast.Constant) \
+                and node.comparators[0].value is None:
+            return ast.Compare(left=node.comparators[0], ops=node.ops, comparators=[node.left])
+        return node
+
+
+class HoistBytes(ast.NodeTransformer):
+    """Every bytes literal used inside a function becomes a private module-level constant (_BYTES_n = b'...')."""
+
+    def __init__(self):
+        self.table = {}
+        self.infn = 0
+
+    def visit_FunctionDef(self, node):
+        self.infn += 1
+        # defaults and decorators stay literals
+        node.body = [self.visit(b) for b in node.body]
+        self.infn -= 1
+        return node
+
+    def visit_Constant(self, node):
+        if self.infn and isinstance(node.value, bytes):
+            name = self.table.setdefault(node.value, '_BYTES_%d' % len(self.table))
+            return ast.Name(id=name, ctx=ast.Load())
+        return node
+
+    def visit_Module(self, node):
+        self.generic_visit(node)
+        if self.table:
+            i = 0
+            while i < len(node.body) and (isinstance(node.body[i], (ast.Import, ast.ImportFrom)) or
+                                          (isinstance(node.body[i], ast.Expr) and isinstance(node.body[i].value, ast.Constant))):
+                i += 1
+            defs = [ast.Assign(targets=[ast.Name(id=n, ctx=ast.Store())], value=ast.Constant(value=v)) for v, n in self.table.items()]
+            node.body[i:i] = defs
+        return node
+
+
+class InlineTemp(ast.NodeTransformer):
+    """v = <expr>  immediately followed by a simple statement that reads v exactly once, v being used nowhere else in the
+    function: the expression is inlined (only when the reading statement evaluates nothing before v that could matter:
+    v is the first name evaluated, conservatively approximated by 'expr is a name/attribute/constant/subscript/call-free')."""
+
+    def visit_FunctionDef(self, node):
+        self.generic_visit(node)
+        counts = {}
+        for n in ast.walk(node):
+            if isinstance(n, ast.Name):
+                counts.setdefault(n.id, [0, 0])[0 if isinstance(n.ctx, ast.Store) else 1] += 1
+        node.body = self._block(node.body, counts)
+        return node
+
+    def _block(self, body, counts):
+        out = []
+        i = 0
+        while i < len(body):
+            st = body[i]
+            for f in ('body', 'orelse', 'finalbody'):
+                if hasattr(st, f) and isinstance(getattr(st, f), list) and not isinstance(st, (ast.FunctionDef, ast.ClassDef)):
+                    setattr(st, f, self._block(getattr(st, f), counts))
+            if isinstance(st, ast.Try):
+                for h in st.handlers:
+                    h.body = self._block(h.body, counts)
+            nxt = body[i + 1] if i + 1 < len(body) else None
+            if isinstance(st, ast.Assign) and len(st.targets) == 1 and isinstance(st.targets[0], ast.Name) and nxt is not None \
+                    and isinstance(nxt, (ast.Assign, ast.Return, ast.Expr)) and counts.get(st.targets[0].id) == [1, 1] \
+                    and not any(isinstance(x, (ast.Call, ast.Yield, ast.Await, ast.NamedExpr)) for x in ast.walk(st.value)):
+                v = st.targets[0].id
+                uses = [x for x in ast.walk(nxt) if isinstance(x, ast.Name) and x.id == v and isinstance(x.ctx, ast.Load)]
+                if len(uses) == 1:
+                    class R(ast.NodeTransformer):
+                        def visit_Name(self_, n):
+                            return st.value if (n.id == v and isinstance(n.ctx, ast.Load)) else n
+                    out.append(R().visit(nxt))
+                    i += 2
+                    continue
+            out.append(st)
+            i += 1
+        return out
+
+
+KINDS = {'unparse': None, 'rename-locals': RenameLocals, 'negate-if': NegateIf, 'expand-augassign': ExpandAug, 'else-pass': ElifToNested, 'rename-private': RenamePrivate, 'return-temp': ReturnTemp, 'split-and': SplitAnd, 'sort-methods': SortMethods, 'frozensets': SetToFrozenset, 'dict-calls': DictLiteralToCall, 'rename-private-params': RenamePrivateParams, 'flip-compare': FlipCompare, 'kw-to-positional': KeywordsToPositional, 'annotate': Annotate, 'if-to-ifexp': IfToIfExp, 'get-none-flip-is': GetNoneAndFlipIs, 'hoist-bytes': HoistBytes, 'inline-temp': InlineTemp}
 
 
 def main():
     kind, root = sys.argv[1], sys.argv[2]
     only = sys.argv[3:] or FILES
+    if kind == 'kw-to-positional':
+        KeywordsToPositional.sigs = private_sigs(root, only)
+    if kind == 'rename-private-params':
+        RenamePrivateParams.table = private_params(root, only)
     if kind == 'rename-private':
         RenamePrivate.table = private_names(root, only)
     for rel in only:
